@@ -61,6 +61,7 @@ types, assume_specifications, spec functions, lemmas):
                                       (Verus' for-loops do not support `continue`; same control flow) - DESIGN 9.2 rule 12
   //@loopbody <ordinal> | <text>     ghost/proof line placed right after the opening brace of the n-th loop's body (erased code)
   //@loopend <ordinal> | <text>      ghost/proof line placed right before the closing brace of the n-th loop's body (fall-through end of an iteration; erased code)
+  //@loopafter <ordinal> | <text>    ghost/proof line placed right after the closing brace of the n-th loop (erased code)
   //@before <needle> | <text>        ghost/proof line placed before the statement that starts with <needle> (erased code)
   //@atend | <text>                  ghost/proof line placed before the closing brace of the body (fall-through exit only; erased code)
   //@ghost | <text>                  (ghost/proof line placed right after the opening brace of the body; erased code)
@@ -755,9 +756,10 @@ def expand(template_path, repo='/repo'):
             mapors, thunks = [], []
             mapdefaults = []
             loopends = {}
+            loopafters = {}
             while i + 1 < len(tpl) and (tpl[i + 1].strip().startswith('//@|') or tpl[i + 1].strip().startswith('//@loop')
                                         or tpl[i + 1].strip().startswith('//@ghost') or tpl[i + 1].strip().startswith('//@dropstmt') or tpl[i + 1].strip().startswith('//@atend') or tpl[i + 1].strip().startswith('//@before')
-                                        or tpl[i + 1].strip().startswith('//@continue_to_else') or tpl[i + 1].strip().startswith('//@loopend') or tpl[i + 1].strip().startswith('//@lift') or tpl[i + 1].strip().startswith('//@sigsubst') or tpl[i + 1].strip().startswith('//@mapor') or tpl[i + 1].strip().startswith('//@thunk') or tpl[i + 1].strip().startswith('//@okmap') or tpl[i + 1].strip().startswith('//@mapdefault')):
+                                        or tpl[i + 1].strip().startswith('//@continue_to_else') or tpl[i + 1].strip().startswith('//@loopend') or tpl[i + 1].strip().startswith('//@loopafter') or tpl[i + 1].strip().startswith('//@lift') or tpl[i + 1].strip().startswith('//@sigsubst') or tpl[i + 1].strip().startswith('//@mapor') or tpl[i + 1].strip().startswith('//@thunk') or tpl[i + 1].strip().startswith('//@okmap') or tpl[i + 1].strip().startswith('//@mapdefault')):
                 i += 1
                 t = tpl[i].strip()
                 if t.startswith('//@|'):
@@ -816,6 +818,9 @@ def expand(template_path, repo='/repo'):
                     atend.append('        ' + t.split('|', 1)[1].strip())
                 elif t.startswith('//@ghost'):
                     ghosts.append('        ' + t.split('|', 1)[1].strip())
+                elif t.startswith('//@loopafter'):
+                    mm = re.match(r'//@loopafter\s+(\d+)\s*\|(.*)$', t)
+                    loopafters.setdefault(int(mm.group(1)), []).append('            ' + mm.group(2).strip())
                 elif t.startswith('//@loopend'):
                     mm = re.match(r'//@loopend\s+(\d+)\s*\|(.*)$', t)
                     loopends.setdefault(int(mm.group(1)), []).append('            ' + mm.group(2).strip())
@@ -894,6 +899,12 @@ def expand(template_path, repo='/repo'):
             for ordinal in c2e:
                 body = _continue_to_else(body, ordinal, name)
                 side.setdefault('normalized_loops', []).append('%s: loop %d: `if C { continue; } REST` -> `if C {} else { REST }`' % (name, ordinal))
+            for ordinal in sorted(loopafters, reverse=True):
+                lb = _loop_bodies(body)
+                if ordinal < 1 or ordinal > len(lb):
+                    raise CutError('fn %s: loopafter ordinal %d not found' % (name, ordinal))
+                cb_ = lb[ordinal - 1][2]
+                body = body[:cb_ + 1] + '\n' + '\n'.join(loopafters[ordinal]) + body[cb_ + 1:]
             for ordinal in sorted(loopends, reverse=True):
                 lb = _loop_bodies(body)
                 if ordinal < 1 or ordinal > len(lb):
